@@ -59,7 +59,7 @@ Definition sums_okb (Q : queues) : bool :=
 
 (* capability of the nearest proper ancestor below root that sets dimension d
    (a positive amount): None = the chain does not end, Some None = no such ancestor *)
-Fixpoint nearest_up (fuel : nat) (Q : queues) (parent : option positive) (d : positive) : option (option Z) :=
+Fixpoint nearest_anc (fuel : nat) (Q : queues) (parent : option positive) (d : positive) : option (option Z) :=
   match fuel with
   | O => None
   | S f =>
@@ -70,7 +70,7 @@ Fixpoint nearest_up (fuel : nat) (Q : queues) (parent : option positive) (d : po
       else match Q !! p with
            | None => Some None
            | Some ps => if bool_decide (0 < amount (qcap ps) d) then Some (Some (amount (qcap ps) d))
-                        else nearest_up f Q (qparent ps) d
+                        else nearest_anc f Q (qparent ps) d
            end
     end
   end.
@@ -79,7 +79,7 @@ Definition caps_okb (Q : queues) : bool :=
   map_allb (fun n s =>
     bool_decide (n = root) ||
     map_allb (fun d v => negb (vis d) || negb (bool_decide (0 < v)) ||
-                match nearest_up (S (S (size Q))) Q (qparent s) d with
+                match nearest_anc (S (S (size Q))) Q (qparent s) d with
                 | Some (Some up) => bool_decide (v <= up)
                 | Some None => true
                 | None => false
